@@ -235,6 +235,7 @@ func TestWorker(t *testing.T) {
 		out.TraceHash = map[string]string{}
 	}
 	cur, _ := os.OpenFile(filepath.Join(outDir, fmt.Sprintf("worker-%d.cur", w)), os.O_CREATE|os.O_RDWR|os.O_TRUNC, 0o644)
+	vf, _ := os.OpenFile(filepath.Join(outDir, fmt.Sprintf("worker-%d.viol.jsonl", w)), os.O_CREATE|os.O_WRONLY|os.O_TRUNC, 0o644)
 	hashes := &bytes.Buffer{}
 	writeCur := func(spec *CaseSpec) {
 		if cur == nil {
@@ -329,7 +330,13 @@ func TestWorker(t *testing.T) {
 				if err != nil {
 					out.Harness = append(out.Harness, "cannot write replay: "+err.Error())
 				}
-				out.Violations = append(out.Violations, ViolationOut{final.Property, final.Rule, final.Detail, path, spec.Seed})
+				vo := ViolationOut{final.Property, final.Rule, final.Detail, path, spec.Seed}
+				out.Violations = append(out.Violations, vo)
+				if vf != nil {
+					// survive a later crash of this worker
+					b, _ := json.Marshal(vo)
+					vf.Write(append(b, '\n'))
+				}
 			}
 		}
 	}
@@ -672,8 +679,18 @@ func driverMain() int {
 			if len(tail) > 6000 {
 				tail = tail[len(tail)-6000:]
 			}
+			if vb, e := os.ReadFile(filepath.Join(outDir, fmt.Sprintf("worker-%d.viol.jsonl", w))); e == nil {
+				for _, line := range bytes.Split(vb, []byte{'\n'}) {
+					var vo ViolationOut
+					if len(line) > 0 && json.Unmarshal(line, &vo) == nil {
+						allViol = append(allViol, vo)
+						total.ClassCount[vo.Property+"/"+vo.Rule]++
+					}
+				}
+			}
 			if v, ok := classifyCrash(prop, curb, r.stderr, replayDir); ok {
 				allViol = append(allViol, v)
+				total.ClassCount[v.Property+"/"+v.Rule]++
 			} else {
 				harness = append(harness, fmt.Sprintf("worker %d died (exit %d) and it is not attributable to library code:\n%s", w, r.code, tail))
 			}
